@@ -24,6 +24,8 @@ SRC_TIE = {
     "C01": _ST.format(f="array.get_c_strides / get_strides / get_offset / mk_order", t="XoGen.src_get_c_strides, src_get_strides, src_get_offset, src_item_offset, src_mk_order_*"),
     "C02": _ST.format(f="array.get_c_strides / get_strides", t="XoGen.src_get_c_strides, src_get_strides"),
     "C06": _ST.format(f="array.get_c_strides / get_strides / get_offset / mk_order", t="XoGen.src_get_c_strides, src_get_strides, src_get_offset, src_item_offset, src_mk_order_*"),
+    "C13": _ST.format(f="context_cpu.BufferNumpy / BufferByteArray .update_from_native, .to_native, .copy_to_native, .update_from_buffer, .to_bytearray",
+                      t="XoGen.src_update_from_native, src_to_native, src_copy_to_native, src_update_from_buffer (the translated methods of both kinds are the BufPrim functions inside capacity)"),
     "C11": _ST.format(f="array.bound_check", t="XoGen.src_bound_check (IndexError exactly when the model's boundCheck refuses)"),
 }
 
@@ -398,7 +400,7 @@ def main():
             "name": "source-to-lean translator",
             "path": "checks/pygen.py, lean/XoGen/ (Lake library XoGen: generated Src/*.lean + hand-written Tie*.lean)",
             "serves_properties": sorted(SRC_TIE),
-            "kind_free_text": "the arithmetic helpers of /repo (_to_slot_size, _align, get_c_strides, get_strides, get_offset, bound_check, mk_order, Chunk.size / overlaps / merge) are "
+            "kind_free_text": "the arithmetic helpers of /repo (_to_slot_size, _align, get_c_strides, get_strides, get_offset, bound_check, mk_order, Chunk.size / overlaps / merge, the ten byte-moving buffer primitives) are "
                               "regenerated as Lean definitions from the source text on every run; kernel-checked theorems state that "
                               "each equals the model's definition for all inputs",
         }],
